@@ -831,6 +831,23 @@ func (r *c04Runner) opGroup() {
 	}
 	_ = n
 	r.comparePartition("GROUP BY", bucketOf)
+	// the same list ordered by an expression (the aggregate then adds a work column to its per-group copy of the rows,
+	// whose first column is id): the same ids per group
+	if rows2, ok := r.query("GROUP BY", "SELECT LISTAGG(id, ',') AS ids, LISTAGG(id, ',') WITHIN GROUP (ORDER BY id * -1) AS ids2, JSON_AGG(id) WITHIN GROUP (ORDER BY id + 0) AS ids3 FROM t GROUP BY "+t.keys()); ok {
+		for _, row := range rows2 {
+			a, ok1 := c04ParseIDs(row[0], n)
+			b, ok2 := c04ParseIDs(row[1], n)
+			js := strings.NewReplacer("[", "", "]", "", "\"", "").Replace(row[2].S)
+			cc, ok3 := c04ParseIDs(rv.S(js), n)
+			sort.Ints(a)
+			sort.Ints(b)
+			sort.Ints(cc)
+			if !ok1 || !ok2 || !ok3 || fmt.Sprint(a) != fmt.Sprint(b) || fmt.Sprint(a) != fmt.Sprint(cc) {
+				r.violate("aggregate:list-ordered-by-an-expression-holds-other-rows", fmt.Sprintf("GROUP BY: LISTAGG(id) of a group is %s, ordered by id * -1 it is %s, JSON_AGG ordered by id + 0 is %s", row[0].Key(), row[1].Key(), row[2].Key()))
+				break
+			}
+		}
+	}
 }
 
 // rows: group rows with the ids list at idsCol; checks that the lists partition 0..n-1 and agree with the counts
@@ -936,6 +953,9 @@ var c04AggCols = []c04AggCol{
 	{"VARP", "VARP(v)", func(vs, ws []rv.V, _ bool) (bucket.Agg, bool) { return c04Always(bucket.Variance(vs, true, false)) }, ""},
 	{"LISTAGG", "LISTAGG(v, '|')", func(vs, ws []rv.V, _ bool) (bucket.Agg, bool) { return c04Always(bucket.ListAgg(vs)) }, "list"},
 	{"LISTAGG", "LISTAGG(w, '|') WITHIN GROUP (ORDER BY id DESC)", func(vs, ws []rv.V, _ bool) (bucket.Agg, bool) { return c04Always(bucket.ListAgg(ws)) }, "list"},
+	{"LISTAGG", "LISTAGG(v, '|') WITHIN GROUP (ORDER BY id * -1)", func(vs, ws []rv.V, _ bool) (bucket.Agg, bool) { return c04Always(bucket.ListAgg(vs)) }, "list"},
+	{"LISTAGG", "LISTAGG(w, '|') WITHIN GROUP (ORDER BY id + 0, v || '')", func(vs, ws []rv.V, _ bool) (bucket.Agg, bool) { return c04Always(bucket.ListAgg(ws)) }, "list"},
+	{"JSON_AGG", "JSON_AGG(v) WITHIN GROUP (ORDER BY id * 2 DESC)", func(vs, ws []rv.V, _ bool) (bucket.Agg, bool) { return c04Always(bucket.JSONAgg(vs)) }, "json"},
 	{"LISTAGG(DISTINCT)", "LISTAGG(DISTINCT w, '|')", func(vs, ws []rv.V, _ bool) (bucket.Agg, bool) { return c04Always(bucket.ListAgg(ws)) }, "listdistinct"},
 	{"JSON_AGG", "JSON_AGG(v)", func(vs, ws []rv.V, _ bool) (bucket.Agg, bool) { return c04Always(bucket.JSONAgg(vs)) }, "json"},
 	{"JSON_AGG", "JSON_AGG(w) WITHIN GROUP (ORDER BY id)", func(vs, ws []rv.V, _ bool) (bucket.Agg, bool) { return c04Always(bucket.JSONAgg(ws)) }, "json"},
